@@ -53,6 +53,7 @@ pub fn all() -> Vec<Regression> {
         Regression { name: "D34-rk23-xout-interpolant", property: "C07", what: "RK23 built with dense_output(false): the interpolant obtained through XOut must reproduce the step's end state (was all zeros)", f: d34 },
         Regression { name: "D35-sol-range-rounding", property: "C06", what: "sol(t) and sol_many must succeed at every reported time (RK23, lin3 on [0, 0.38688] and [0, 0.4461], rtol 1e-2: last time one ulp beyond the last segment)", f: d35 },
         Regression { name: "D36-radau-min-step-longer-than-interval", property: "C04", what: "Radau with min_step = 1e-3 on [0, 5e-4] (both directions) must return, not panic", f: d36 },
+        Regression { name: "D40-landing-within-rounding-of-xend", property: "C05", what: "Radau and BDF with first_step = max_step = 0.1 on [3e5, 3e5 + 1] (either direction) must deliver all three requested times x0, x0 + 0.5, xend and end at xend itself", f: d40 },
         Regression { name: "D39-stiffness-test-extreme-scale", property: "C13", what: "DOPRI5 / DOP853 on a mildly stiff linear system scaled by 2^-600 and 2^600 must stop with the same status after the same number of steps as the unscaled run", f: d39 },
         Regression { name: "D37-rk4-step-below-one-ulp", property: "C04", what: "RK4 with first_step = 1e-8 from x0 = +-1e9 must return (with a non-success status), not spin at x0", f: d37 },
         Regression { name: "D16-rk4-dense-order", property: "C07", what: "RK4 cubic Hermite dense output must be O(h^4) inside a step", f: d16 },
@@ -598,6 +599,33 @@ fn d28() -> Result<(), String> {
     for w in s.t.windows(2) {
         if !(w[1] > w[0]) {
             return Err(format!("t not strictly increasing: {:e} then {:e}", w[0], w[1]));
+        }
+    }
+    Ok(())
+}
+
+fn d40() -> Result<(), String> {
+    let p0 = base(Base::Decay(-0.5));
+    for m in [Method::RADAU, Method::BDF] {
+        for dirn in [1.0, -1.0] {
+            for (o, h) in [(3e5, 0.1), (1e5, 0.2), (1e6, 0.1), (1e9, 0.3)] {
+                let p = if dirn < 0.0 { crate::problems::reflect(&p0) } else { p0.clone() };
+                let (x0, xend) = (dirn * o, dirn * (o + 1.0));
+                let mut c = Cfg::new(m, x0, xend, &p.y0).tol(1e-6, 1e-9);
+                c.first_step = Some(dirn * h);
+                c.max_step = Some(h);
+                let r = run(&p, &c);
+                let s = sol_of(&r)?;
+                if s.status != Status::Success || s.t.last().map(|t| t.to_bits()) != Some(xend.to_bits()) {
+                    return Err(format!("{} on [{:e}, {:e}] with steps of {}: {:?}, last sample {:?}", mname(m), x0, xend, h, s.status, s.t.last()));
+                }
+                c.t_eval = Some(vec![x0, x0 + dirn * 0.5, xend]);
+                let r = run(&p, &c);
+                let s = sol_of(&r)?;
+                if s.status != Status::Success || s.t.len() != 3 {
+                    return Err(format!("{} on [{:e}, {:e}] with steps of {}: {:?} with {} of 3 requested times: {:?}", mname(m), x0, xend, h, s.status, s.t.len(), s.t));
+                }
+            }
         }
     }
     Ok(())
